@@ -217,7 +217,9 @@ class SimConsole:
             if fr.typ == 0x36:
                 slots = at4.read_timer_slots(fr.data)
                 self.commands.append(("timer-control", slots))
-                return "cmd-timer", []
+                zero = {"disabled": False, "hour": 0, "minute": 0}
+                self.apply_timer_control([x for x in slots if x["on"] != zero or x["off"] != zero])
+                return "cmd-timer", [self.timer_status_frame(pid)]
             return f"type-{fr.typ:02x}", []
         if fr.typ == 0xC0:
             try:
@@ -245,8 +247,10 @@ class SimConsole:
                     self.apply_ac_control(c)
                 return "cmd-ac", [self.ac_status_frame(pid, only=[c["ac"] for c in cs])]
             if sub == 0x32:
-                self.commands.append(("timer-control", at5.read_timer_records(normal, rl, rc, rest)))
-                return "cmd-timer", []
+                recs = at5.read_timer_records(normal, rl, rc, rest)
+                self.commands.append(("timer-control", recs))
+                self.apply_timer_control(recs)
+                return "cmd-timer", [self.timer_status_frame(pid)]
             return f"c0-{sub:02x}", []
         return f"type-{fr.typ:02x}", []
 
@@ -282,6 +286,16 @@ class SimConsole:
                 s["setpoint"] += d
             else:
                 s["percent"] = max(0, min(100, s["percent"] + 5 * d))
+
+    def apply_timer_control(self, recs):
+        """The console stores the timers it is told and reports them (AT4: slots that are all zero are the filler
+        the client puts in for the other air-conditioners and are left alone)."""
+        for x in recs:
+            t = self.state["timer"].get(x["ac"])
+            if t is None:
+                continue
+            t["on"] = dict(x["on"])
+            t["off"] = dict(x["off"])
 
     def apply_ac_control(self, c):
         s = self.state["ac"].get(c["ac"])
